@@ -34,11 +34,16 @@ def _eval_all(P, wd, cases, tag):
         terms.append(t)
         idx.append(i)
     funs = [P.CORR, P.ORACLE, P.HYP]
+    # an oracle that excuses exactly the recorded known findings: a case failing it too is never suppressed
+    relaxed = getattr(P, "ORACLE_EXCUSING_KNOWN", None)
+    if relaxed:
+        funs.append(relaxed)
     fails, broken = core.coq_eval_cases(wd, P.MODULE, P.CASE_TYPE, terms, funs, tag=tag)
     corr_fail = sorted(set(idx[k] for k in fails[P.CORR]))
     oracle_fail = sorted(set(idx[k] for k in fails[P.ORACLE]))
     outside_hyp = set(idx[k] for k in fails[P.HYP])
-    return {"results": results, "corr_fail": corr_fail, "oracle_fail": oracle_fail,
+    unexcused = set(idx[k] for k in fails[relaxed]) if relaxed else None
+    return {"results": results, "corr_fail": corr_fail, "oracle_fail": oracle_fail, "unexcused": unexcused,
             "outside_hyp": outside_hyp, "py_fail": py_fail, "offgrid": offgrid,
             "broken": broken, "evaluated_in_coq": len(terms)}
 
@@ -170,16 +175,18 @@ def _main(P, args, tier, seed, t0, wd):
     violations = []      # (kind, index, why)
     known_hits = collections.OrderedDict()
 
-    def classify_failure(i, kind, why):
+    def classify_failure(i, kind, why, unexcused=None):
         c, r = cases[i], results[i]
         fid = P.finding_match(c, r, kind, why, findings) if hasattr(P, "finding_match") else None
+        if fid and unexcused is not None and i in unexcused:
+            fid = None          # fails even with the known finding excused: a different violation
         if fid:
             known_hits.setdefault(fid, []).append(i)
         else:
             violations.append((kind, i, why))
 
     for i in ev["oracle_fail"]:
-        classify_failure(i, "counterexample", "oracle (extracted statement of the property) is false on the implementation's output")
+        classify_failure(i, "counterexample", "oracle (extracted statement of the property) is false on the implementation's output", ev.get("unexcused"))
     for i, fs in ev["py_fail"].items():
         classify_failure(i, "counterexample", "; ".join(fs))
     for i in ev["offgrid"]:
